@@ -90,7 +90,7 @@ Proof.
   apply while_count_bind with (n := n) (k := 0%nat)
     (Inv := fun k i => i = Z.of_nat (n - k) /\ (k <= n)%nat /\
                        ucmp a b = ucmp (firstn (n - k) a) (firstn (n - k) b)).
-  - intros k i (-> & Hk & Heq) Hc. rewrite ?Z.gtb_ltb, ltb_0_of_nat in Hc. apply Nat.ltb_lt in Hc. split; [lia|].
+  - intros k i (-> & Hk & Heq) Hc. pos_cond_in Hc. apply Nat.ltb_lt in Hc. split; [lia|].
     change 1 with (Z.of_nat 1). rewrite usub_nat by lia. cbn [bind].
     rewrite !arr_get_nat by lia. cbn [bind].
     assert (E : forall l : list Z, (n - k - 1 < length l)%nat ->
@@ -102,7 +102,7 @@ Proof.
     destruct (nth (n - k - 1) b 0 <? nth (n - k - 1) a 0); [reflexivity|].
     destruct (nth (n - k - 1) a 0 <? nth (n - k - 1) b 0); [reflexivity|].
     split; [f_equal; lia|]. split; [lia|]. replace (n - S k)%nat with (n - k - 1)%nat by lia. reflexivity.
-  - intros k i (-> & Hk & Heq) Hc. rewrite ?Z.gtb_ltb, ltb_0_of_nat in Hc. apply Nat.ltb_ge in Hc.
+  - intros k i (-> & Hk & Heq) Hc. pos_cond_in Hc. apply Nat.ltb_ge in Hc.
     rewrite Heq. replace (n - k)%nat with 0%nat by lia. reflexivity.
   - split; [f_equal; lia|]. split; [lia|]. rewrite Nat.sub_0_r. rewrite !firstn_all2 by lia. reflexivity.
   - lia.
@@ -150,8 +150,8 @@ Ltac count_down h stop a n :=
   apply (loop_fold_stop_bind (fun acc j => (acc, Z.of_nat (n - j))) (fun acc j => (acc, Z.of_nat (n - S j)))
            (fun d acc => acc + h d) stop (rev a)) with (v := fun acc => acc);
   [ rewrite Nat.sub_0_r; reflexivity | rewrite rev_length; lia
-  | intros acc j Hj; rewrite rev_length in Hj; rewrite ?Z.gtb_ltb, ltb_0_of_nat; apply Nat.ltb_lt; lia
-  | intros acc; rewrite rev_length; rewrite ?Z.gtb_ltb, ltb_0_of_nat; apply Nat.ltb_ge; lia
+  | intros acc j Hj; rewrite rev_length in Hj; pos_cond; apply Nat.ltb_lt; lia
+  | intros acc; rewrite rev_length; pos_cond; apply Nat.ltb_ge; lia
   | intros acc j Hj; rewrite rev_length in Hj; body_red;
     change 1 with (Z.of_nat 1); rewrite usub_nat by lia; cbn [bind];
     replace (n - j - 1)%nat with (n - S j)%nat by lia;
